@@ -379,6 +379,17 @@ theorem tie_syntax_tables :
       ts = jpegBaseline ∨ ts = jpegLs ∨ ts = jpegLsNear ∨ ts = j2kLossless ∨ ts = j2k ∨ ts = rle) :=
   syntax_tables_tie
 
+/-- **Tie, optional parameters** (T13d: (function, parameter, default) regenerated from the signatures): every default that
+`encode_frame` and `decode_frame` share is the same -- a frame encoded with optional arguments left out decodes with the same arguments
+left out -- and the defaults are the values the model is given for an omitted argument (pixel representation 0, no planar
+configuration, index 0). -/
+theorem tie_defaults_agree :
+    (∀ k d1 d2, ("encode_frame", k, d1) ∈ frameDefaults → ("decode_frame", k, d2) ∈ frameDefaults → d1 = d2) ∧
+    ("encode_frame", "pixel_representation", "0") ∈ frameDefaults ∧ ("decode_frame", "pixel_representation", "0") ∈ frameDefaults ∧
+    ("encode_frame", "planar_configuration", "None") ∈ frameDefaults ∧ ("decode_frame", "planar_configuration", "None") ∈ frameDefaults ∧
+    ("decode_frame", "index", "0") ∈ frameDefaults ∧ frameDefaults.length = 5 :=
+  defaults_tie
+
 /-- a 2x3 frame in Fortran order differs from its C order: the tie is not vacuous -/
 example : flattenIn "F" ⟨2, 3, none, .u8, [1, 2, 3, 4, 5, 6]⟩ = some [1, 4, 2, 5, 3, 6] := by decide
 example : cellBytesIn ">" 2 258 = some [1, 2] ∧ cellBytesIn "<" 2 258 = some [2, 1] := by decide
